@@ -402,3 +402,14 @@ Definition sq_builders : list (str * str) :=
    ((@nil N), [113%N; 117%N; 111%N; 116%N; 101%N])].
 Definition sq_resolve_shape : N := 1%N.
 Definition sq_expand_shape : N := 1%N.
+
+(* ---- C04 (harness/tr/tr_collections.py): what the translator emits for the pinned tree ---- *)
+(* 1 = PersistentVector/TransientVector val_at, nth, assoc, assoc_transient hand the index to pyrsistent
+   unguarded and pop is the slice self[:-1]; 1 = runtime nth/get/contains/assoc/update pass it through;
+   1 = with-meta is (if meta (.with-meta o meta) o); 1 = PersistentList.pop returns a PersistentList
+   (repair F-04c); 1 = the persistent wrappers assign _inner/_meta only in __init__ *)
+Definition coll_vector_shape : N := 1%N.
+Definition coll_nth_shape : N := 1%N.
+Definition coll_with_meta_shape : N := 1%N.
+Definition coll_list_pop_shape : N := 1%N.
+Definition coll_wrappers_pure : N := 1%N.
